@@ -271,6 +271,10 @@ func (t *topologyPlugin) getJobAllocatableDomains(
 		return nil, err
 	}
 
+	// The solvers of reclaim, preempt and consolidation pass a partial representative of the job that holds only
+	// its pending tasks. The pods of the job that are already active are known to the job in the session.
+	podSets = t.withSessionJobPodSets(job, podSets)
+
 	// Validate that the domains do not clash with the chosen domain for active pods of the job
 	var relevantDomainsByLevel domainsByLevel
 	if hasActiveAllocatedTasks(podSets) && hasTopologyRequiredConstraint(subGroup) {
@@ -307,6 +311,29 @@ func (t *topologyPlugin) getJobAllocatableDomains(
 	}
 
 	return domains, nil
+}
+
+// withSessionJobPodSets returns, for the given pod sets of a (possibly partial) job, the pod sets of the same names
+// of the job as the session holds it.
+func (t *topologyPlugin) withSessionJobPodSets(
+	job *podgroup_info.PodGroupInfo, podSets map[string]*subgroup_info.PodSet,
+) map[string]*subgroup_info.PodSet {
+	if t.session == nil || t.session.ClusterInfo == nil {
+		return podSets
+	}
+	sessionJob, found := t.session.ClusterInfo.PodGroupInfos[job.UID]
+	if !found || sessionJob == job {
+		return podSets
+	}
+	sessionPodSets := make(map[string]*subgroup_info.PodSet, len(podSets))
+	for name, podSet := range podSets {
+		if sessionPodSet, found := sessionJob.PodSets[name]; found {
+			sessionPodSets[name] = sessionPodSet
+		} else {
+			sessionPodSets[name] = podSet
+		}
+	}
+	return sessionPodSets
 }
 
 func hasActiveAllocatedTasks(podSets map[string]*subgroup_info.PodSet) bool {
